@@ -318,8 +318,8 @@ Proof.
     + repeat match goal with |- context [if ?b then _ else _] => destruct b end; cbn [fst]; apply K_refl.
     + destruct passive; [destruct nowait; apply K_refl|]. cbn [fst]. apply K_same; reflexivity.
   - destruct (alookup _ _ _); [|apply K_refl]. destruct (seqb ex ""); [apply K_refl|].
-    destruct (queue_found s q); [|apply K_refl]. destruct (locked _ _); [apply K_refl|]. destruct (bad_xmatch _); [apply K_refl|]. cbn [fst]. kl.
-  - destruct (alookup _ _ _); [|apply K_refl]. destruct (queue_found s q); [|apply K_refl]. destruct (locked _ _); [apply K_refl|]. destruct (bad_xmatch _); [apply K_refl|]. cbn [fst]. kl.
+    destruct (queue_found s q); [|apply K_refl]. destruct (locked _ _); [apply K_refl|]. destruct (bad_xmatch _); [apply K_refl|]. destruct (extype_eqb _ ExTopic && bad_pattern _)%bool; [apply K_refl|]. cbn [fst]. kl.
+  - destruct (alookup _ _ _); [|apply K_refl]. destruct (queue_found s q); [|apply K_refl]. destruct (locked _ _); [apply K_refl|]. destruct (bad_xmatch _); [apply K_refl|]. destruct (extype_eqb _ ExTopic && bad_pattern _)%bool; [apply K_refl|]. cbn [fst]. kl.
   - destruct (queue_found s q) as [qu|]; [|apply K_refl]. destruct (locked _ _); [apply K_refl|]. cbn [fst].
     apply K_same; destruct (q_durable qu); reflexivity.
   - destruct (queue_found s q); [|apply K_refl]. destruct (locked _ _); [apply K_refl|].
@@ -2258,9 +2258,9 @@ Proof.
       intros qn. unfold qreg. change (get_queue (_ <| exchanges ::= _ |>) qn) with (get_queue (set_queue (s <| next_qid ::= N.succ |>) name (new_queue (next_qid s) c dur excl ad)) qn).
       rewrite get_queue_set_queue'. destruct (seqb qn name); auto.
   - (* queue.bind *) destruct (alookup _ _ _); [|exact R]. destruct (seqb ex ""); [exact R|].
-    destruct (queue_found s q); [|exact R]. destruct (locked _ _); [exact R|]. destruct (bad_xmatch _); [exact R|]. cbn [fst].
+    destruct (queue_found s q); [|exact R]. destruct (locked _ _); [exact R|]. destruct (bad_xmatch _); [exact R|]. destruct (extype_eqb _ ExTopic && bad_pattern _)%bool; [exact R|]. cbn [fst].
     eapply RI_rsame; [|exact R]; apply rsame_same; reflexivity.
-  - destruct (alookup _ _ _); [|exact R]. destruct (queue_found s q); [|exact R]. destruct (locked _ _); [exact R|]. destruct (bad_xmatch _); [exact R|]. cbn [fst].
+  - destruct (alookup _ _ _); [|exact R]. destruct (queue_found s q); [|exact R]. destruct (locked _ _); [exact R|]. destruct (bad_xmatch _); [exact R|]. destruct (extype_eqb _ ExTopic && bad_pattern _)%bool; [exact R|]. cbn [fst].
     eapply RI_rsame; [|exact R]; apply rsame_same; reflexivity.
   - (* queue.purge *) destruct (queue_found s q) as [qu|] eqn:Ef; [|exact R]. destruct (locked _ _); [exact R|]. cbn [fst].
     eapply RI_rsame; [|exact R].
@@ -2518,9 +2518,9 @@ Proof.
     + repeat match goal with |- context [if ?b then _ else _] => destruct b end; cbn [fst]; apply ceq_refl.
     + destruct passive; [destruct nowait; apply ceq_refl|]. cbn [fst]. apply ceq_hn. reflexivity.
   - destruct (alookup _ _ _); [|apply ceq_refl]. destruct (seqb ex ""); [apply ceq_refl|].
-    destruct (queue_found s q); [|apply ceq_refl]. destruct (locked _ _); [apply ceq_refl|]. destruct (bad_xmatch _); [apply ceq_refl|]. apply ceq_hn; reflexivity.
+    destruct (queue_found s q); [|apply ceq_refl]. destruct (locked _ _); [apply ceq_refl|]. destruct (bad_xmatch _); [apply ceq_refl|]. destruct (extype_eqb _ ExTopic && bad_pattern _)%bool; [apply ceq_refl|]. apply ceq_hn; reflexivity.
   - destruct (alookup _ _ _); [|apply ceq_refl]. destruct (queue_found s q); [|apply ceq_refl]. destruct (locked _ _); [apply ceq_refl|].
-    destruct (bad_xmatch _); [apply ceq_refl|]. apply ceq_hn; reflexivity.
+    destruct (bad_xmatch _); [apply ceq_refl|]. destruct (extype_eqb _ ExTopic && bad_pattern _)%bool; [apply ceq_refl|]. apply ceq_hn; reflexivity.
   - destruct (queue_found s q) as [qu|]; [|apply ceq_refl]. destruct (locked _ _); [apply ceq_refl|]. cbn [fst].
     apply ceq_hn. destruct (q_durable qu); reflexivity.
   - destruct (queue_found s q); [|apply ceq_refl]. destruct (locked _ _); [apply ceq_refl|].
